@@ -120,6 +120,7 @@ type Problem struct {
 type Verdict struct {
 	Dest     string // old | new | old=new | bad
 	Strays   int
+	Probes   int    // of Strays: empty probe files next to the destination
 	ModeNote string // new content with a mode that is not the final one
 	Problems []Problem
 	State    string // canonical description of the observed state (for evidence)
@@ -127,8 +128,11 @@ type Verdict struct {
 
 func (v *Verdict) class() string {
 	s := "dest=" + v.Dest
-	if v.Strays > 0 {
+	if v.Strays > v.Probes {
 		s += "+temp-strays"
+	}
+	if v.Probes > 0 {
+		s += "+empty-probe-file-next-to-dest"
 	}
 	if v.ModeNote != "" {
 		s += "+" + v.ModeNote
@@ -274,10 +278,20 @@ func evaluate(before, after map[string]*Entry, ex *Expect, sideOutputs []string)
 		if sameEntry(b, a, false) {
 			continue
 		}
+		okTemp, probe := false, false
+		if b == nil {
+			okTemp, probe = allowedTemp(p, a, ex)
+		}
 		switch {
-		case b == nil && allowedTemp(p, ex):
+		case okTemp:
 			v.Strays++
+			if probe {
+				v.Probes++
+			}
 			strayNames = append(strayNames, p)
+		case b == nil && tempNamed(p, ex):
+			v.Problems = append(v.Problems, Problem{"only-temp-strays", "temp-file-outside-temp-location",
+				fmt.Sprintf("%s was left behind: %s (destination shows the %s state); it is named like a temporary file but lies outside the temporary location of this configuration (%s), where only an empty probe file may stay", p, a, v.Dest, strings.Join(ex.TempLocs, ", "))})
 		case b == nil && a.Kind == "dir" && under(dest, p):
 			// a parent directory of the destination was created
 		case b == nil && side[p] && isNew:
@@ -309,11 +323,13 @@ func describeNew(ex *Expect) string {
 
 // allowedTemp: a created entry that counts as "stray temporary file in the
 // temporary location": below the registry's tmp dir, or (below) an entry named
-// ".<base of destination><random>" directly inside a temp location.
-func allowedTemp(p string, ex *Expect) bool {
+// ".<base of destination><random>" directly inside a temp location, or an EMPTY
+// regular file of that name directly inside a probe location (see Expect.ProbeLocs).
+// The second result says that it was accepted as a probe file.
+func allowedTemp(p string, e *Entry, ex *Expect) (ok, probe bool) {
 	for _, t := range ex.TempTrees {
 		if under(p, t) {
-			return true
+			return true, false
 		}
 	}
 	prefix := "." + filepath.Base(ex.Dest)
@@ -324,10 +340,24 @@ func allowedTemp(p string, ex *Expect) bool {
 		rel, _ := filepath.Rel(d, p)
 		first := strings.Split(rel, string(filepath.Separator))[0]
 		if strings.HasPrefix(first, prefix) && len(first) > len(prefix) {
-			return true
+			return true, false
 		}
 	}
-	return false
+	for _, d := range ex.ProbeLocs {
+		name := filepath.Base(p)
+		if filepath.Dir(p) == d && strings.HasPrefix(name, prefix) && len(name) > len(prefix) &&
+			e != nil && e.Kind == "file" && len(e.Data) == 0 {
+			return true, true
+		}
+	}
+	return false, false
+}
+
+// tempNamed: the entry has the name of a temporary file of this destination.
+func tempNamed(p string, ex *Expect) bool {
+	prefix := "." + filepath.Base(ex.Dest)
+	name := filepath.Base(p)
+	return strings.HasPrefix(name, prefix) && len(name) > len(prefix)
 }
 
 func isContentWrite(name string) bool {
